@@ -2346,7 +2346,8 @@ class NLProblemBuilder {
     // Check if the function is defined.
     if (Function func = builder_.function(func_index))
       return builder_.BeginCall(func, num_args);
-    throw Error("function {} is not defined", func_index);
+    // (a single int argument would select Error(CStringRef msg, int exit_code))
+    throw Error(fmt::format("function {} is not defined", func_index));
   }
   NumericExpr EndCall(CallArgHandler handler) {
     return builder_.EndCall(handler);
